@@ -46,23 +46,27 @@ theorem markClosed_count (s : S) : countOnClose (markClosed s).log = countOnClos
   · simp [S.emit, List.filter_append, Out.isOnClose]
   · rfl
 
+theorem unsentUnclean_st (s : S) : (unsentUnclean s).st = s.st := by unfold unsentUnclean; split <;> rfl
+theorem unsentUnclean_lost (s : S) : (unsentUnclean s).lost = s.lost := by unfold unsentUnclean; split <;> rfl
+theorem unsentUnclean_log (s : S) : (unsentUnclean s).log = s.log := by unfold unsentUnclean; split <;> rfl
+
 theorem connectionLost_rank (s : S) : s.st.rank ≤ (connectionLost s).st.rank := by
   unfold connectionLost
   split
   · exact Nat.le_refl _
-  · rw [reportClose_st, markClosed_st]; exact rank_le_closed _
+  · rw [reportClose_st, unsentUnclean_st, markClosed_st]; exact rank_le_closed _
 
 theorem connectionLost_closed (s : S) (h : s.lost = false) :
     (connectionLost s).st = .closed ∧ (connectionLost s).lost = true := by
   unfold connectionLost
   rw [if_neg (by simp [h])]
-  exact ⟨by rw [reportClose_st, markClosed_st], by rw [reportClose_lost, markClosed_lost]; rfl⟩
+  exact ⟨by rw [reportClose_st, unsentUnclean_st, markClosed_st], by rw [reportClose_lost, unsentUnclean_lost, markClosed_lost]; rfl⟩
 
 /-- `connectionLost` on a connection that has not been lost yet emits exactly one `onClose` -/
 theorem connectionLost_emits_one (s : S) (h : s.lost = false) :
     countOnClose (connectionLost s).log = countOnClose s.log + 1 := by
   unfold connectionLost
-  rw [if_neg (by simp [h]), reportClose_count, markClosed_count]
+  rw [if_neg (by simp [h]), reportClose_count, unsentUnclean_log, markClosed_count]
   rfl
 
 theorem connectionLost_idem (s : S) (h : s.lost = true) : connectionLost s = s := by
@@ -295,8 +299,8 @@ theorem connectionLost_closeSent (s : S) : (connectionLost s).closeSent = s.clos
   unfold connectionLost
   split
   · rfl
-  · unfold reportClose markClosed cancelOnLost
-    split <;> split <;> (try split) <;> rfl
+  · unfold reportClose unsentUnclean markClosed cancelOnLost
+    split <;> split <;> (try split) <;> (try split) <;> rfl
 
 theorem step_closeInv (s : S) (op : Op) (h : CloseInv s) : CloseInv (step s op) := by
   unfold step
